@@ -78,18 +78,24 @@ def fn_merge_table(ctx, rule="TABLE-Fn.merge"):
             return ("Dx" if a[2][0] == xk else "Dx_", True)
         if a[0] == "cmp" and a[1] in ("is", "is not") and is_const(a[3], None) and a[2] == CK:
             return ("K", a[1] == "is not")
-        if a[0] == "cmp" and a[1] in ("is", "is not") and is_const(a[3], None) and a[2] == sub1:
+        def rec_discard(t):
+            # the discarded part of a recursive merge of this key's two values, whatever further arguments the call passes
+            return t[0] == "idx" and is_const(t[2], 1) and t[1][0] == "call" and t[1][1] == ("attr", SELF, "merge") and t[1][2][:2] == (xk, xk_)
+        if a[0] == "cmp" and a[1] in ("is", "is not") and is_const(a[3], None) and rec_discard(a[2]):
             return ("N", a[1] == "is not")
-        if a == sub1:
+        if rec_discard(a):
             return ("N", True)
         return None
 
     atoms = atoms_of(rows)
     cls = {}
+    nfree = 0
     for a in atoms:
         c = classify(a)
         if c is None:
-            raise AnalysisError(f"{construct}: unrecognised loop condition {short(a, ev, 120)}")
+            # a condition outside the contract's vocabulary: a free Boolean, both truth values are explored
+            nfree += 1
+            c = (f"U{nfree}:{short(a, ev, 50)}", True)
         cls[a] = c
     names = sorted({c[0] for c in cls.values()})
     ncase = 0
@@ -115,6 +121,8 @@ def fn_merge_table(ctx, rule="TABLE-Fn.merge"):
         ncase += 1
         if A and B and D:
             want_r, want_d = [sub0], ([sub1] if Nn else [])
+            # the discard of whatever recursive call was made is compared below through its own value; a recursive call with
+            # other arguments than (x[k], x_[k], check) shows up as a different merged value
         elif A and B and K:
             want_r, want_d = ["WHERE"], []
         elif A and B:
@@ -204,10 +212,13 @@ def fn_filter_table(ctx, rule="TABLE-Fn.filter"):
 
     atoms = atoms_of(rows)
     cls = {}
+    nfree = 0
     for a in atoms:
         c = classify(a)
         if c is None:
-            raise AnalysisError(f"{construct}: unrecognised loop condition {short(a, ev, 120)}")
+            # a condition outside the contract's vocabulary: a free Boolean, both truth values are explored
+            nfree += 1
+            c = (f"U{nfree}:{short(a, ev, 50)}", True)
         cls[a] = c
     names = sorted({c[0] for c in cls.values()})
     flags_present = any(r[0] == "assign" and r[1] in ("found_selected", "found_unselected") for r in rows)
